@@ -338,3 +338,33 @@ def ref_class_transformed(params: dict) -> float:
     lp_lt = -0.5 * lt**2 - 0.5 * LOG2PI
     lik = float(np.sum(-0.5 * (Y_TR[:4] - b) ** 2 - 0.5 * LOG2PI))
     return lp_z + lp_lt + lik
+
+
+def build_auto_transformed_model():
+    """
+    tau2 ~ Gamma(2, rate 1) with auto_transform=True: build_model() itself transforms it with the
+    default event-space bijector (Softplus): t = "tau2_transformed" is the sampled parameter
+    m ~ N(0, 2);  y_i ~ N(m, sqrt(tau2))  (observed)
+    """
+    import jax.numpy as jnp
+    import liesel.model as lsl
+    import tensorflow_probability.substrates.jax.distributions as tfd
+
+    tau2 = lsl.param(jnp.float32(0.8), lsl.Dist(tfd.Gamma, concentration=2.0, rate=1.0), name="tau2")
+    tau2.auto_transform = True
+    m = lsl.param(jnp.float32(0.2), lsl.Dist(tfd.Normal, loc=0.0, scale=2.0), name="m")
+    sd = lsl.Var(lsl.Calc(jnp.sqrt, tau2), name="sd")
+    y = lsl.obs(jnp.asarray(Y_TR, dtype=jnp.float32), lsl.Dist(tfd.Normal, loc=m, scale=sd), name="y")
+    return lsl.GraphBuilder().add(y).build_model()
+
+
+def ref_auto_transformed(params: dict) -> float:
+    t = float(params["tau2_transformed"])
+    m = float(params["m"])
+    tau2 = math.log1p(math.exp(t))  # softplus
+    log_jac = -math.log1p(math.exp(-t))  # log sigmoid(t)
+    a, r = 2.0, 1.0
+    lp_tau2 = a * math.log(r) - math.lgamma(a) + (a - 1) * math.log(tau2) - r * tau2
+    lp_m = -0.5 * (m / 2.0) ** 2 - math.log(2.0) - 0.5 * LOG2PI
+    lik = float(np.sum(-0.5 * (Y_TR - m) ** 2 / tau2 - 0.5 * math.log(tau2) - 0.5 * LOG2PI))
+    return lp_tau2 + log_jac + lp_m + lik
